@@ -22,7 +22,7 @@ def cfg(colt, z2=1, rows=0, intr=1, rmrows=0, rmcol=0, mapc=0, swaps=0, comp=0):
 def quick_cfgs():
     out = [cfg(c, z2=i % 2) for i, c in enumerate(COLS)] + [cfg(c, z2=(i + 1) % 2) for i, c in enumerate(COLS)]
     out += [cfg('INTRUSIVE_LIST', z2=0, rows=1, intr=1, rmrows=1, rmcol=1), cfg('SET', z2=1, rows=1, intr=0, rmcol=1, mapc=1), cfg('VECTOR', z2=0, swaps=1, rows=1, intr=0),
-            cfg('NAIVE_VECTOR', z2=1, swaps=1, mapc=1, rmcol=1), cfg('INTRUSIVE_SET', z2=0, swaps=1), cfg('LIST', z2=0, comp=1, rows=1, rmrows=1), cfg('INTRUSIVE_LIST', z2=1, comp=1), cfg('UNORDERED_SET', z2=0, comp=1)]
+            cfg('NAIVE_VECTOR', z2=1, swaps=1, mapc=1, rmcol=1), cfg('VECTOR', z2=1, swaps=1), cfg('VECTOR', z2=0, swaps=1, mapc=1), cfg('HEAP', z2=0, swaps=1), cfg('UNORDERED_SET', z2=1, swaps=1), cfg('INTRUSIVE_SET', z2=0, swaps=1), cfg('LIST', z2=0, comp=1, rows=1, rmrows=1), cfg('INTRUSIVE_LIST', z2=1, comp=1), cfg('UNORDERED_SET', z2=0, comp=1)]
     return out
 
 
@@ -68,7 +68,7 @@ def gen_case(rng, caps):
         c = rng.choice([0, 1, 1, 2, p - 1, rng.randrange(p)]) % p
         if o < 0.62:
             op = rng.choice(['add', 'mta', 'msa'])
-            if s == t: continue   # a column is never its own source in the random streams (aliasing, recorded as a known finding)
+            if s == t and caps['comp']: continue   # compressed matrices: a column of the target's class as source is part of a known finding
             if caps['comp'] and (not dense[t] or same_class(s, t)): continue   # known finding: null / shared representative
             if op == 'add': new = {r: (dense[t].get(r, 0) + dense[s].get(r, 0)) % p for r in range(R)}; lines.append('add %d %d' % (s, t))
             elif op == 'mta': new = {r: (dense[t].get(r, 0) * c + dense[s].get(r, 0)) % p for r in range(R)}; lines.append('mta %d %d %d' % (s, c, t))
@@ -80,7 +80,9 @@ def gen_case(rng, caps):
             lines.append('zerocol %d' % t); dense[t] = {}
         elif o < 0.9 and caps['swaps']:
             if rng.random() < 0.5:
-                a, b = rng.sample(range(R), 2); lines.append('swaprow %d %d' % (a, b))
+                a, b = rng.sample(range(R), 2)
+                if rng.random() < 0.1: b = a                      # a row swapped with itself is the identity
+                lines.append('swaprow %d %d' % (a, b))
                 for col in dense:
                     va, vb = col.pop(a, None), col.pop(b, None)
                     if va is not None: col[b] = va
